@@ -13,7 +13,9 @@ def check_noforce(ctx, rng):
         prior = gen.rand_tree(rng, max_files=5, allow_odd=False)
         t1 = sc.put_tree(prior)
         link = rng.choice(LINKS)
-        sc.checkout(t1, [link], force=True)
+        # the workspace was usually checked out with the configured link type, sometimes with another one
+        existing = link if rng.random() < 0.6 else rng.choice(LINKS)
+        sc.checkout(t1, [existing], force=True)
         target = dict(prior)
         for k in list(prior):
             r = rng.random()
@@ -24,10 +26,10 @@ def check_noforce(ctx, rng):
         if rng.random() < 0.4:
             target[("added",)] = b"brand new"
         # (a symlink to a missing cache object dangles and the follow-up stat raises: outside this property, see C09's known finding)
-        missing = [md5hex(c) for c in target.values() if rng.random() < 0.08 and link != "symlink"]
+        missing = [md5hex(c) for c in target.values() if rng.random() < 0.08 and link != "symlink" and existing != "symlink"]
         t2 = sc.put_tree(target, skip=missing)
         edits = sc.user_edits()
-        gc_old = rng.random() < 0.25 and link != "symlink"  # a symlinked workspace file *is* the cache object
+        gc_old = rng.random() < 0.25 and link != "symlink" and existing != "symlink"  # a symlinked workspace file *is* the cache object
         if gc_old:
             # the old version leaves the cache while the workspace still holds it (e.g. gc)
             for k, c in prior.items():
@@ -36,7 +38,17 @@ def check_noforce(ctx, rng):
                 if h not in {md5hex(x) for x in target.values()} and os.path.exists(p) and rng.random() < 0.6:
                     os.chmod(p, 0o644)
                     os.remove(p)
-        relink = rng.random() < 0.4
+        gc_unchanged = []
+        if rng.random() < 0.3 and link != "symlink" and existing != "symlink":
+            # objects of files that do not change between the two versions leave the cache too (never fetched / collected)
+            for k, c in prior.items():
+                if target.get(k) == c and rng.random() < 0.5:
+                    p = sc.cache_path(md5hex(c))
+                    if os.path.exists(p):
+                        os.chmod(p, 0o644)
+                        os.remove(p)
+                        gc_unchanged.append("/".join(k))
+        relink = rng.random() < (0.7 if existing != link else 0.4)
         prompt = rng.choice([None, "decline"])
         before_bytes = sc.bytes_snapshot()
         before = sc.walk()
@@ -51,12 +63,14 @@ def check_noforce(ctx, rng):
         after = sc.walk()
         case = {"noforce_checkout": {"prior": {"/".join(k): v.decode("latin1") for k, v in prior.items()},
                                       "target": {"/".join(k): v.decode("latin1") for k, v in target.items()},
-                                      "link": link, "relink": relink, "prompt": prompt, "edits": edits, "gc_old": gc_old,
+                                      "link": link, "existing": existing, "relink": relink, "prompt": prompt, "edits": edits, "gc_old": gc_old,
+                                      "gc_unchanged": gc_unchanged,
                                       "missing": missing, "local": sc.local, "state": sc.state is not None}}
         lost = [rel for rel, b in before_bytes.items() if after_bytes.get(rel) != b]
         ctx.case(case, nontrivial=any(not recoverable[r] for r in before_bytes))
         ctx.count("outcome:" + ("ok" if "ok" in res else res["err"]))
         ctx.count("link=%s relink=%s prompt=%s" % (link, relink, prompt))
+        ctx.count("existing_differs=%s gc_unchanged=%s" % (existing != link, bool(gc_unchanged)))
         ctx.count("unrecoverable_files_present=%s" % any(not v for v in recoverable.values()))
         sizes = {md5hex(c): len(c) for c in list(target.values()) + list(prior.values())}
         ans = ctx.driver.ask(model_req(sc, before, target, cache_now, {"force": False, "relink": relink, "types": [link],
@@ -76,6 +90,45 @@ def check_noforce(ctx, rng):
             pass  # the refused path is among the untouched ones by the check above
         if len(ctx.samples) < 2:
             ctx.sample({"case": case["noforce_checkout"], "result": res, "changed_paths": lost})
+    finally:
+        sc.close()
+
+
+def check_remove_output(ctx, rng):
+    """checkout(path, fs, None, cache): the output has no hash info any more, what is in the workspace is to be removed -
+    still never a file whose bytes are not in the cache (the directory object being cached says nothing about its files)"""
+    sc = Scene(ctx, rng)
+    try:
+        prior = gen.rand_tree(rng, max_files=6, allow_odd=False)
+        t1 = sc.put_tree(prior)
+        link = rng.choice(["copy", "hardlink"])
+        sc.checkout(t1, [link], force=True)
+        edits = sc.user_edits(kinds=("replace_uncached", "add")) if rng.random() < 0.3 else []
+        gone = []
+        for k, c in prior.items():
+            if rng.random() < 0.3:
+                p = sc.cache_path(md5hex(c))
+                if os.path.exists(p):
+                    os.chmod(p, 0o644)
+                    os.remove(p)
+                    gone.append("/".join(k))
+        before_bytes = sc.bytes_snapshot()
+        recoverable = {rel: (b is not None and sc.intact_in_cache(b)) for rel, b in before_bytes.items()}
+        from dvc_data.hashfile.checkout import CheckoutError, LinkError, PromptError, checkout
+
+        kind, res = safe_call(lambda: checkout(sc.ws, sc.fs, None, sc.odb, force=False, state=sc.state), expected=(PromptError, CheckoutError, LinkError))
+        after_bytes = sc.bytes_snapshot()
+        case = {"remove_output": {"prior": {"/".join(k): v.decode("latin1") for k, v in prior.items()}, "link": link, "edits": edits,
+                                   "objects_gone_from_cache": gone, "local": sc.local, "state": sc.state is not None}}
+        ctx.case(case, nontrivial=bool(gone) or bool(edits))
+        ctx.count("remove_output:outcome=%s" % (kind if kind == "ok" else res))
+        for rel, b in before_bytes.items():
+            if after_bytes.get(rel) != b:
+                ctx.oracle(recoverable[rel], case, {"why": "removing an output without force destroyed a file whose content is not in the cache",
+                                                     "path": rel, "outcome": kind if kind == "ok" else res})
+        refused = (kind != "ok" and res == "PromptError")
+        ctx.corr("Checkout.checkout (empty target)~checkout(obj=None): refused iff some file is unrecoverable", case,
+                 refused, any(not v for v in recoverable.values()))
     finally:
         sc.close()
 
@@ -153,7 +206,7 @@ def run(ctx):
         "workspace checked out from one directory object (copy/hardlink/symlink, both store classes, with/without state), then user "
         "edits (replace by uncached content, replace by cached content, delete, add an untracked file), optionally the old version "
         "leaving the cache, then a checkout of another object without force, relink on/off, prompt absent or declining, some target "
-        "objects missing; link histories record/modify/replace/remove/clean-up with in-use lists and non-normalised root spellings. "
+        "objects missing, the workspace checked out with another link type than the configured one, objects of unchanged files gone from the cache; removal of an output (checkout of no object) with file objects gone from the cache while the directory object stays; link histories record/modify/replace/remove/clean-up with in-use lists and non-normalised root spellings. "
         "non-trivial = the workspace holds at least one file whose content is not in the cache"
     )
     ctx.assumptions = ["the hash-state cache is coherent (C13): a stale cached hash of a user file would make in_cache lie"]
@@ -161,6 +214,8 @@ def run(ctx):
         check_noforce(ctx, ctx.rng)
     for _ in range(ctx.n(120, 1200)):
         check_links(ctx, ctx.rng)
+    for _ in range(ctx.n(40, 500)):
+        check_remove_output(ctx, ctx.rng)
 
 
 def search(ctx):
@@ -168,6 +223,8 @@ def search(ctx):
         check_noforce(ctx, ctx.rng)
     for _ in range(800):
         check_links(ctx, ctx.rng)
+    for _ in range(500):
+        check_remove_output(ctx, ctx.rng)
 
 
 def replay(ctx, payload):
